@@ -17,7 +17,7 @@ import (
 
 const rule = "case = (document: JSON-model or loose YAML with comments/anchors, assignment-free expression e from the typed core generator or the full read-only vocabulary, operand position W). " +
 	"oracle (metamorphic): the document re-encoded (YAML, full fidelity) after evaluating W[e] in-process equals its encoding before; and `e as $x | .` / `select(e)` print only copies of what `.` prints. " +
-	"non-trivial = e parses, evaluates without error inside W and contains a traversal and another operator; distinct by (W, e, doc) Sub split_exp: the --split-exp name expression `[e] | "<dir>/f" + ($index | tostring)` with an assignment-free e: the files written, in order, hold exactly what `.` prints."
+	"non-trivial = e parses, evaluates without error inside W and contains a traversal and another operator; distinct by (W, e, doc) Sub split_exp: the --split-exp name expression `[e] | <dir>/f + ($index | tostring)` with an assignment-free e: the files written, in order, hold exactly what `.` prints."
 
 func TestMain(m *testing.M) {
 	hx.AllowComplexKeys = true
